@@ -47,7 +47,7 @@ pub trait IdentProvider {
         span: &Span,
         ident_kind: IdentKind,
     ) -> Option<Ident> {
-        if operand.is_lit() {
+        if operand.is_lit() && ident_kind != IdentKind::Spread {
             return None;
         }
 
